@@ -1,9 +1,10 @@
 """
 C18 — true singletons: at most one live instance per class between clears.
 
-Case: {"ops": [[op, ci, ai], ...]}   classes: 0 P, 1 Q(P) (subclass), 2 R, 3 T (keyword-only ctor)
+Case: {"ops": [[op, ci, ai], ...]}   classes: 0 P, 1 Q(P) (subclass), 2 R, 3 T (keyword-only ctor), 4 N, 5 Y, 6 Z; ci >= 10: M (derived metaclass)
   op "new": construct class ci with argument selection ai; "clear": clear class ci (ci == 4: clear all; ci == 5: clear(None))
 """
+import abc
 import itertools
 
 from hypothesis import strategies as st
@@ -15,7 +16,7 @@ LEVEL = "exploration"
 DESIGN_REF = "DESIGN.md §3 C18"
 RULE = (
     "Histories of constructions (arbitrary positional / keyword arguments) and clear_true_singleton(cls) / "
-    "clear_true_singleton() calls over a fresh family per case: P, Q(P) (subclass of a singleton class), R (instances falsy via __len__), T (keyword-only, falsy via __bool__) N (its __init__ constructs R: nested construction) and Y (its __init__ refuses some arguments, and for others issues a global clear from inside __init__); the harness keeps no reference to instances between calls.  "
+    "clear_true_singleton() calls over a fresh family per case: P, Q(P) (subclass of a singleton class), R (instances falsy via __len__), T (keyword-only, falsy via __bool__) N (its __init__ constructs R: nested construction) Y (its __init__ refuses some arguments, and for others issues a global clear from inside __init__), Z (closed signature) and M (its metaclass is DERIVED from TrueSingleton, the singleton-plus-ABCMeta recipe); the harness keeps no reference to instances between calls.  "
     "Bounded-exhaustive for all histories up to the stated length over {P,Q(P),R(falsy)} x 2 argument selections + targeted "
     "and global clears, Hypothesis up to 60 operations.  Oracle = dict model: construct => the model's instance if "
     "one is live (identity, __init__ not re-run, stored args are the first call's) else a new object of exactly that "
@@ -43,7 +44,7 @@ def budget(tier):
 
 
 def strategy(tier):
-    op = st.tuples(st.sampled_from(["new", "new", "new", "clear"]), st.integers(0, 9), st.integers(0, len(ARGSETS) - 1))
+    op = st.tuples(st.sampled_from(["new", "new", "new", "clear"]), st.integers(0, 11), st.integers(0, len(ARGSETS) - 1))
     return st.builds(lambda ops: {"ops": [list(o) for o in ops]}, st.lists(op, max_size=60))
 
 
@@ -130,8 +131,20 @@ def check_case(case):
             self.serial = ninit[0]
             self.args = ((path,) if path != "p" else (), {})
 
-    CL = [P, Q, R, T, N, Y, Z]
-    names = "PQRTNYZ"
+    class DerivedMeta(S.TrueSingleton, abc.ABCMeta):
+        """The usual recipe for a singleton that is also an abstract base class: a metaclass DERIVED from TrueSingleton."""
+
+    class M(metaclass=DerivedMeta):
+        def __init__(self, *a, **k):
+            ninit[0] += 1
+            self.serial = ninit[0]
+            self.args = (a, k)
+
+    CL = [P, Q, R, T, N, Y, Z, M]
+    names = "PQRTNYZM"
+
+    def sel(ci):
+        return 7 if ci >= 10 else ci % 7
     model = {}          # class -> (serial, args)
     cleared_since = {}
     nt_a = nt_b = False
@@ -140,7 +153,7 @@ def check_case(case):
         for step, (op, ci, ai) in enumerate(case["ops"]):
             where = f"step {step} {op} {ci} {ai}"
             if op == "new":
-                c = CL[ci % 7]
+                c = CL[sel(ci)]
                 a, k = ARGSETS[ai]
                 if c is T:
                     k = {kk: vv for kk, vv in k.items() if kk == "k"}
@@ -185,7 +198,7 @@ def check_case(case):
                     classes.add("nested-construction-hit")
                 if c in model:
                     require(getattr(o, "serial", None) == model[c][0] and type(o) is c, "second-instance-created",
-                            f"{where}: {names[ci % 7]} already has a live instance (serial {model[c][0]}), got serial {getattr(o, 'serial', None)} of class {type(o).__name__}")
+                            f"{where}: {names[sel(ci)]} already has a live instance (serial {model[c][0]}), got serial {getattr(o, 'serial', None)} of class {type(o).__name__}")
                     require(ninit[0] == n0, "init-ran-again", where)
                     require(o.args == model[c][1], "stored-args-changed", f"{where}: args now {o.args}, first call's were {model[c][1]}")
                 else:
@@ -213,7 +226,7 @@ def check_case(case):
                         model = {}
                         classes.add("clear-all")
                     else:
-                        c = CL[ci % 7]
+                        c = CL[sel(ci)]
                         if c not in model:
                             classes.add("clear-class-without-instance")
                         else:
